@@ -95,6 +95,17 @@ def show_replay(path):
     from . import topy
     payload = json.load(open(path, encoding="utf-8"))
     print(f"# {payload.get('signature')}  (property {payload.get('property')}, config {payload.get('config', payload.get('kind'))})")
+    if payload.get("kind") == "holder":
+        sp = payload["spec"]
+        print("# holder scenario (pikasim/c15h.py: _build, _mutate): mutable-mode sub-query embedded at position "
+              f"{sp['embed']!r} of a {sp['qcls']} parent (parent mutable-mode: {sp['parent_mutable']}), parent duplicated by "
+              f"{sp['how']}" + (f" protocol {sp['proto']}" if sp.get("proto") is not None else "") +
+              f", then in-place calls {sp['muts']} on the sub-query of the {'original' if sp['side'] == 'orig' else 'duplicate'}")
+        print("# spec: " + json.dumps(sp))
+        for k in ("what", "differs_on", "before", "after", "original", "duplicate", "detail", "error"):
+            if k in payload:
+                print(f"# {k}: {json.dumps(payload[k])[:600]}")
+        return 0
     prog = payload["program"]
     if isinstance(prog, dict):
         print("# canonical delivery order:")
